@@ -73,3 +73,52 @@ def parameter(xml, what, expected, observed=None, **_):
     if what in f["summary"]:
       return True, f"{f['summary']}; required {f['required']}\n{xml}"
   return False, f"{what}: read as required ({expected})"
+
+
+def time_expression(syntax, model=None, obligation=None, **_):
+  """proof tier `time-expression[syntax]`: the counter-model's field values printed into the expression, read natively"""
+  import logging
+  import xml.etree.ElementTree as et
+  from fractions import Fraction
+  import ttconv.imsc.reader as reader
+  import ttconv.model as m
+  from contracts.c04 import SYNTAXES, TT, TTP
+  logging.disable(logging.CRITICAL)
+  model = model or {}
+  params, fps, tick = SYNTAXES[syntax]
+
+  def g(k):
+    return int(model.get(k, 0) or 0)
+
+  def expr(p):
+    kind = syntax.split("@")[0]
+    if kind.startswith("clock-time"):
+      base = g(p + "h") * 3600 + g(p + "m") * 60 + g(p + "s")
+      if kind == "clock-time.fraction":
+        return f"{g(p + 'h'):02d}:{g(p + 'm'):02d}:{g(p + 's'):02d}.{g(p + 'ms'):03d}", base + Fraction(g(p + "ms"), 1000)
+      return f"{g(p + 'h'):02d}:{g(p + 'm'):02d}:{g(p + 's'):02d}:{g(p + 'ff'):02d}", base + g(p + "ff") / fps
+    metric = kind.split("-")[1].split(".")[0]
+    if ".fraction" in kind:
+      val, text = g(p + "n") + Fraction(g(p + "d"), 1000), f"{g(p + 'n')}.{g(p + 'd'):03d}{metric}"
+    else:
+      val, text = Fraction(g(p + "n")), f"{g(p + 'n')}{metric}"
+    if metric == "f":
+      return text, val / fps
+    if metric == "t":
+      return text, val / tick
+    return text, val * {"h": 3600, "m": 60, "s": 1, "ms": Fraction(1, 1000)}[metric]
+
+  tb, wb = expr("b_")
+  te, we = expr("e_")
+  root = et.Element(f"{{{TT}}}tt", {"{http://www.w3.org/XML/1998/namespace}lang": "en", **{f"{{{TTP}}}{k}": v for k, v in params.items()}})
+  p = et.SubElement(et.SubElement(et.SubElement(root, f"{{{TT}}}body"), f"{{{TT}}}div"), f"{{{TT}}}p", {"begin": tb, "end": te})
+  p.text = "x"
+  doc = reader.to_model(et.ElementTree(root))
+  ps = [e for e in doc.get_body().dfs_iterator() if isinstance(e, m.P)] if doc is not None and doc.get_body() is not None else []
+  if not wb < we:
+    return False, f"begin={tb!r} end={te!r}: empty interval, nothing demanded"
+  if len(ps) != 1:
+    return True, f"begin={tb!r} end={te!r} ({params}): the paragraph is not read"
+  gb = ps[0].get_begin() or Fraction(0)
+  ge = ps[0].get_end()
+  return (gb != wb or ge != we or isinstance(gb, float)), f"begin={tb!r} end={te!r} ({params}): read as [{gb!r}, {ge!r}), TTML media times [{wb}, {we})"
